@@ -1156,16 +1156,24 @@ func (e *c10) episode(n int, ep int) {
 			if rng.Intn(4) == 0 {
 				rw = rw.Add(sdk.NewInt64Coin("ubtc", e.rndAmount()))
 			}
+			if rng.Intn(4) == 0 {
+				// rewards in a registered but NOT stakeable token, and in a stakeable one below its StakeMin (10): neither
+				// can be auto-compounded; they must stay claimable
+				rw = rw.Add(sdk.NewInt64Coin("xeth", e.rndAmount()))
+				if rng.Intn(2) == 0 {
+					rw = rw.Add(sdk.NewInt64Coin("utst", int64(1+rng.Intn(30))))
+				}
+			}
 			e.fee(rng.Intn(e.nAcc), rw)
 			e.poolRewards(v, rw)
 		case k < 90:
 			var ds []string
-			for _, d := range c10Stakeable {
+			for _, d := range append(append([]string{}, c10Stakeable...), "xeth") {
 				if rng.Intn(2) == 0 {
 					ds = append(ds, d)
 				}
 			}
-			e.setCompound(a, rng.Intn(3) == 0, ds)
+			e.setCompound(a, rng.Intn(4) == 0, ds)
 		case k < 92:
 			e.claimRewards(a)
 		case k < 94:
@@ -1245,10 +1253,10 @@ func (e *c10) episode(n int, ep int) {
 				}
 				e.op(fmt.Sprintf("ms begin h=%d t=%d p=%d commit=%s", h, t, prop, cs), out)
 				e.r.Count("l1-begin:" + out)
-				e.h, e.t, e.ctx = h, t, bctx
 				if panicked != nil {
-					break
+					break // nothing was written, the block did not happen (the model keeps its height and time too)
 				}
+				e.h, e.t, e.ctx = h, t, bctx
 				e.obsVotes()
 				// the signing record that decides a proposer's share holds only votes inside the snapshot window
 				for _, vt := range app.DistrKeeper.GetAllValidatorVotes(e.ctx) {
